@@ -115,6 +115,10 @@ def compress_as(filename, fmt, target=None, keep=True):
     compfile = get_compressor(fmt)
     try:
         if fmt == "zip":
+            # As for the other formats, the input must be a readable file
+            # before the target is created or overwritten:
+            with open(filename, 'rb'):
+                pass
             with compfile(target, 'w') as f_out:
                 f_out.write(
                     filename, arcname=target_filename,
